@@ -1,8 +1,8 @@
 package props
 
 import (
-	"strings"
 	"math/big"
+	"strings"
 
 	"github.com/terra-money/alliance/x/alliance"
 
@@ -182,11 +182,11 @@ func init() {
 				}
 			}
 			return []*engine.Scenario{
-				req(mk("c03-small", small, [][]world.Op{nil}, []int{3, 1, 0, 2, 0}, 5)),
 				mk("c03-cycled", small, [][]world.Op{cycled, dust}, []int{3, 1, 0, 2, 0}, 3),
 				mk("c03-magnitude", mag, [][]world.Op{nil}, []int{4, 1, 0, 2, 0}, 5),
 				unionScenario("C03", "c03-union", tier, c03Step, nil),
 				unionFullScenario("C03", "c03-union-full-pipeline", tier, c03Step, nil, 4),
+				req(mk("c03-small", small, [][]world.Op{nil}, []int{3, 1, 0, 2, 0}, 5)),
 			}
 		},
 		Assumptions: []string{
